@@ -11,6 +11,7 @@ PROP = {
              "window is full or the new one empty, or >=2 groups of one remedy are active in one window (sequential unit); >=2 "
              "counters with >=1 rejection (isolation unit); a burst that is partly admitted (burst unit); distinct = canonical JSON of the case"),
     "assumptions": [
+        "a window-size change while a window is in progress: the statement does not say which length governs the transition, but under either one at most the share passes in the overlap of the window in progress (old size) and the window of the new size the next request falls into - the old window bounds it if the old size governs, the new window if the new one does. That overlap is judged (only when the old window was itself a fully judged one and the shares were not re-allocated); a change of the size that starts the count again admits up to twice the share there",
         "unit TestThrottlingLoadedFromFile: the generated remedy is written to a policies.yaml with an allocation table of 1-14 groups, loaded by the real policies accessor (config.BuildInitialFromFile: read, validate, log, persist, register - the proxy's admin API answered by a stand-in) and driven through runner.DispatchOnRequest with what the accessor hands out; requests favour the last groups of the table; judged by the same per-window, per-group reference",
         "unit TestThrottlingBehindAccountOrchestration: the throttling remedy at the end of a remedy chain, through runner.DispatchOnRequest: the clients send no group header, the header it groups by is the token header an account_orchestration remedy in front of it puts on the request (accounts listed so that the round robin hands request i the group value of step i; what an admitted request was sent on with is read back from the action and must be that value); verdicts judged by the same per-window, per-group reference as the plugin-level units",
         "the gateway's log level (LOG_LEVEL: off in three cases of eight, else error / info / debug / trace; what is logged is thrown away, what a log statement does to build its arguments happens) is a generated part of every case of TestSequentialWindows and TestBurst: no answer may depend on it; a failing case reports its level",
